@@ -62,7 +62,7 @@ func c03AttTable(kind string, epoch phase0.Epoch) []c03Duty {
 	case "C": // validator 1 dropped
 		return []c03Duty{{f + 1, 2}, {f + 1, 3}}
 	case "D": // as A plus duties outside the requested epoch, which must be ignored
-		return []c03Duty{{f, 1}, {f + 1, 2}, {f + 1, 3}, {f + c03SPE + 2, 3}, {f - 1, 2}}
+		return []c03Duty{{f, 1}, {f + 1, 2}, {f + 1, 3}, {f + c03SPE + 2, 3}, {f - 1, 2}, {f + c03SPE, 2}}
 	case "E": // a duty in every slot
 		return []c03Duty{{f, 1}, {f + 1, 2}, {f + 2, 3}, {f + 3, 1}}
 	}
@@ -79,7 +79,7 @@ func c03PropTable(kind string, epoch phase0.Epoch) []c03Duty {
 	case "C": // dropped
 		return []c03Duty{{f + 2, 2}}
 	case "D": // out-of-epoch duty
-		return []c03Duty{{f, 1}, {f + 2, 2}, {f + c03SPE + 1, 3}}
+		return []c03Duty{{f, 1}, {f + 2, 2}, {f + c03SPE + 1, 3}, {f + c03SPE, 3}, {f - 1, 3}}
 	}
 	return nil
 }
